@@ -107,6 +107,13 @@ def path(f, st, depth=0):
         if kind == "param":
             return "p:" + d["name"]
         if kind in ("local", "static_local", "binding"):
+            if kind == "local" and d.get("ref") and depth < 30:
+                # a local reference is an alias of the lvalue it is bound to
+                tgt = _ref_target(f, d["name"])
+                if tgt is not None:
+                    p = path(f, tgt, depth + 5)
+                    if p is not None and "l:__" not in p:
+                        return p
             return "l:" + d["name"]
         if kind in ("global", "static_member"):
             return "g:" + d["name"]
@@ -178,6 +185,26 @@ def path(f, st, depth=0):
                 return (b + ".<deleter>") if b else None
         return None
     return None
+
+
+def _ref_target(f, name):
+    """initialiser of the local reference `name` when it binds an lvalue (not a temporary)"""
+    cache = getattr(f, "_ref_cache", None)
+    if cache is None:
+        cache = {}
+        for st in f.stmts.values():
+            if st["k"] == "DeclStmt":
+                for d in st["decls"]:
+                    if d.get("ref") and d.get("init") and d.get("k") == "local":
+                        init = f.s(d["init"])
+                        iu = unwrap(f, init)
+                        if iu is not None and iu.get("vk") == "l" and iu["k"] in ("MemberExpr", "DeclRefExpr", "UnaryOperator",
+                                                                                 "CXXOperatorCallExpr"):
+                            cache[d["name"]] = init
+                        else:
+                            cache.setdefault(d["name"], None)
+        f._ref_cache = cache
+    return cache.get(name)
 
 
 def subst(p, mapping):
@@ -716,11 +743,32 @@ class Engine:
             if a is None:
                 ok = False
             else:
+                # 'if (!enabled) return X; return Y;' : the condition is a branch fact at the return
+                rc = self._return_cond(g, r)
+                if rc is not None:
+                    a = [dict(x, cond=x.get("cond") or rc) for x in a]
                 alts.extend(a)
         self._summ_busy.discard(key)
         res = alts if ok else None
         self._summ[key] = res
         return res
+
+    def _return_cond(self, g, r):
+        """(path, value) of the single boolean member whose value is known at return statement r"""
+        from .typestate import NonNull
+        key = ("nn", g.unit.name, g.id)
+        nn = self._summ.get(key)
+        if nn is None:
+            nn = NonNull(g)
+            self._summ[key] = nn
+        pos = g.pos_of(r)
+        if pos is None:
+            return None
+        facts = [(k, p) for k, p in nn.before.get(tuple(pos), set()) if p.startswith("this.") and "->" not in p]
+        if len(facts) == 1:
+            k, p = facts[0]
+            return (p, k == "nn")
+        return None
 
     def _summ_expr(self, g, la, e, pos, cond):
         e = unwrap(g, e)
